@@ -21,7 +21,7 @@ if [ ! -f $BASE/passing.txt ]; then
   ) 9>/tmp/vseed-base.lock
 fi
 rm -rf $WT; git -C /repo worktree prune; git -C /repo worktree add --detach $WT HEAD >/dev/null 2>&1 || { echo '{"id":"'$ID'","ok":false,"why":"worktree"}'; exit 1; }
-if ! git -C $WT apply $SRC/patch.diff; then echo '{"id":"'$ID'","ok":false,"why":"patch does not apply"}'; git -C /repo worktree remove --force $WT; exit 1; fi
+if ! git -C $WT apply $SRC/patch.diff 2>/dev/null && ! git -C $WT apply -3 $SRC/patch.diff; then echo '{"id":"'$ID'","ok":false,"why":"patch does not apply"}'; git -C /repo worktree remove --force $WT; exit 1; fi
 cmake -G Ninja -B $WT/_build -S $WT -DCMAKE_BUILD_TYPE=RelWithDebInfo >/dev/null 2>&1
 if ! cmake --build $WT/_build -j8 >$WT/build.log 2>&1; then echo '{"id":"'$ID'","ok":false,"why":"does not compile"}'; git -C /repo worktree remove --force $WT; exit 1; fi
 ctest --test-dir $WT/_build -j8 --timeout 900 2>/dev/null | grep -E "Test +#[0-9]+:" | grep Passed | sed -E 's/.*Test +#[0-9]+: +([^ ]+) .*/\1/' | sort > $WT/passing.txt
